@@ -85,6 +85,10 @@ func evalC06RT(c c06RT, o *Obs) error {
 		return fmt.Errorf("DecodeWIF(%q) = key %x compress %v, want %x %v", s, pad32(d.PrivKey.D), d.CompressPubKey, []byte(c.Scalar), c.Compress)
 	}
 	for _, n2 := range nets {
+		if w.IsForNet(n2.Params) != d.IsForNet(n2.Params) {
+			return fmt.Errorf("NewWIF(%s).IsForNet(%s) = %v but the key decoded from its string says %v: the network identity does not survive the round trip",
+				nets[c.Net].Name, n2.Name, w.IsForNet(n2.Params), d.IsForNet(n2.Params))
+		}
 		if got, want := d.IsForNet(n2.Params), n2.Params.PrivateKeyID == p.PrivateKeyID; got != want {
 			return fmt.Errorf("DecodeWIF(%q).IsForNet(%s) = %v, want %v", s, n2.Name, got, want)
 		}
